@@ -27,9 +27,18 @@ Definition th := N.
 Definition cid := N.
 Definition inv := N.
 
-(* what a DID document is to the property: the keys and the endpoint messages for that DID are packed for and
-   posted to; d_h = digest of the whole normalised document (two documents are the same iff all four agree) *)
-Record doc := Doc { d_id : did; d_keys : list key; d_ep : ep; d_h : N }.
+(* what a DID document is to the property: its service blocks in document order, its key agreement key ids, and
+   d_h = digest of the whole normalised document.  The keys and the endpoint messages for that DID are packed for
+   and posted to are COMPUTED from these by `dest` as service.CreateDestination does it (checked against the real
+   function on every document of every trace, Corr.dests_ok). *)
+Inductive svct := TV2 | TV1 | TIndy | TOther.
+    (* DIDCommMessaging / did-communication / IndyAgent / any other service type *)
+Definition svct_eqb (a b : svct) : bool :=
+  match a, b with TV2, TV2 | TV1, TV1 | TIndy, TIndy | TOther, TOther => true | _, _ => false end.
+
+(* s_plain: some recipient key of the block is not written as a DID (raw base58); s_ep = 0: no usable URI *)
+Record svc := Svc { s_type : svct; s_keys : list key; s_plain : bool; s_ep : ep }.
+Record doc := Doc { d_id : did; d_svcs : list svc; d_ka : list key; d_h : N }.
 
 Fixpoint keys_eqb (a b : list key) : bool :=
   match a, b with
@@ -38,8 +47,54 @@ Fixpoint keys_eqb (a b : list key) : bool :=
   | _, _ => false
   end.
 
+Definition svc_eqb (a b : svc) : bool :=
+  svct_eqb (s_type a) (s_type b) && keys_eqb (s_keys a) (s_keys b) && Bool.eqb (s_plain a) (s_plain b) &&
+  N.eqb (s_ep a) (s_ep b).
+Fixpoint svcs_eqb (a b : list svc) : bool :=
+  match a, b with
+  | [], [] => true
+  | x :: r, y :: t => svc_eqb x y && svcs_eqb r t
+  | _, _ => false
+  end.
+
+(* did.LookupService: the first block of the type (priorities of a parsed document are JSON numbers, which the
+   comparison does not recognise as integers: the first block found stays) *)
+Fixpoint find_svc (t : svct) (l : list svc) : option svc :=
+  match l with
+  | [] => None
+  | s :: r => if svct_eqb (s_type s) t then Some s else find_svc t r
+  end.
+
+Definition is_nil {A} (l : list A) : bool := match l with [] => true | _ => false end.
+
+(* service.CreateDestination (destination_default.go): DIDComm v2 block first (recipient keys = the key agreement
+   ids), then did-communication (recipient keys must all be DIDs), then IndyAgent (raw keys are converted) *)
+Definition dest (dc : doc) : option (ep * list key) :=
+  match find_svc TV2 (d_svcs dc) with
+  | Some s => if is_nil (d_ka dc) || N.eqb (s_ep s) 0 then None else Some (s_ep s, d_ka dc)
+  | None =>
+      match find_svc TV1 (d_svcs dc) with
+      | Some s => if N.eqb (s_ep s) 0 || is_nil (s_keys s) || s_plain s then None else Some (s_ep s, s_keys s)
+      | None =>
+          match find_svc TIndy (d_svcs dc) with
+          | Some s => if N.eqb (s_ep s) 0 || is_nil (s_keys s) then None else Some (s_ep s, s_keys s)
+          | None => None
+          end
+      end
+  end.
+
+Definition d_keys (dc : doc) : list key := match dest dc with Some (_, ks) => ks | None => [] end.
+Definition d_ep (dc : doc) : ep := match dest dc with Some (e, _) => e | None => 0 end.
+
+(* the type of the document's FIRST service block: what handleInboundRequest hands to getMyDIDDoc *)
+Definition first_type (dc : doc) : option svct := match d_svcs dc with [] => None | s :: _ => Some (s_type s) end.
+
+(* the ordinary document: one did-communication block *)
+Definition doc1 (i : did) (ks : list key) (e : ep) (h : N) : doc := Doc i [Svc TV1 ks false e] [] h.
+Definition doc0 : doc := Doc 0 [] [] 0.
+
 Definition doc_eqb (a b : doc) : bool :=
-  N.eqb (d_id a) (d_id b) && keys_eqb (d_keys a) (d_keys b) && N.eqb (d_ep a) (d_ep b) && N.eqb (d_h a) (d_h b).
+  N.eqb (d_id a) (d_id b) && svcs_eqb (d_svcs a) (d_svcs b) && keys_eqb (d_ka a) (d_ka b) && N.eqb (d_h a) (d_h b).
 
 (* the code as found (the peer DID store and the key index overwrite) and after the two fix: commits (a stored
    document is never replaced by a different one; a key stays linked to the DID it was first saved for) *)
@@ -215,6 +270,23 @@ Definition dispatch (a : agent) (fk tk : key) : out :=
   | Some _, None => OReject
   end.
 
+(* getMyDIDDoc: DID Exchange builds a document for did-communication, IndyAgent and DIDCommMessaging; the legacy
+   protocol for did-communication and IndyAgent *)
+Definition my_type_ok (p : proto) (t : option svct) : bool :=
+  match p, t with
+  | DX, Some TV1 | DX, Some TV2 | DX, Some TIndy => true
+  | LC, Some TV1 | LC, Some TIndy => true
+  | _, _ => false
+  end.
+(* DID Exchange (default build): recipientKeyAsDIDKey knows did-communication and DIDCommMessaging only, an
+   IndyAgent document just created is left behind; legacy: recipientKey = CreateDestination of the new document
+   (a did-communication document of the legacy service lists its key in raw base58, which CreateDestination refuses) *)
+Definition reply_key_ok (p : proto) (t : option svct) (my : doc) : bool :=
+  match p, t with
+  | DX, Some TIndy => false
+  | _, _ => negb (is_nil (d_keys my))
+  end.
+
 Definition step (v : variant) (a : agent) (i : input) : agent * list out :=
   match i with
   | ICreateInv i k =>
@@ -250,11 +322,16 @@ Definition step (v : variant) (a : agent) (i : input) : agent * list out :=
           | Some s =>
               let a2 := set_vdr a1 s in
               match d_keys dc with
-              | [] => abandoned a2                      (* CreateDestination: no recipient keys *)
+              | [] => abandoned a2                      (* CreateDestination fails *)
               | _ =>
+                  (* getMyDIDDoc(type of the request document's first service block): a type it does not know
+                     is refused before anything is created *)
+                  if negb (my_type_ok p (first_type dc)) then abandoned a2 else
                   match new_my v a2 my with
                   | None => abandoned a2
                   | Some a3 =>
+                      (* the key the reply is sent from: recipientKeyAsDIDKey / recipientKey of the new document *)
+                      if negb (reply_key_ok p (first_type dc) my) then abandoned a3 else
                       (* prepareResponse: the invitation named by pthid must be one of ours *)
                       match iget (a_invs a3) pt with
                       | None => abandoned a3
